@@ -630,6 +630,19 @@ def fingerprint(cls: ast.ClassDef) -> str:
     return hashlib.sha1("\n".join(lines).encode()).hexdigest()[:16]
 
 
+def src_fingerprint(pkg: Path) -> str:
+    """hash of the abstract syntax of every module of the optimizer's package (docstrings and comments do not count)"""
+    h = hashlib.sha1()
+    for f in sorted(pkg.glob("*.py")):
+        tree = ast.parse(f.read_text())
+        for n in ast.walk(tree):
+            if isinstance(n, (ast.FunctionDef, ast.ClassDef, ast.Module)) and n.body and isinstance(n.body[0], ast.Expr) \
+                    and isinstance(n.body[0].value, ast.Constant) and isinstance(n.body[0].value.value, str):
+                n.body = n.body[1:] or [ast.Pass()]
+        h.update(f.name.encode()); h.update(ast.dump(tree).encode())
+    return h.hexdigest()[:16]
+
+
 def analyse(repo: Path) -> tuple[list[dict], list[str]]:
     found, missing = discover(repo)
     he = helper_entropy(repo)
@@ -651,7 +664,7 @@ def analyse(repo: Path) -> tuple[list[dict], list[str]]:
               "after_init": popwrites_of(methods, "after_initialization", gk),
               "before_init": popwrites_of(methods, "before_initialization", gk),
               "init_pop_overridden": "_init_population" in methods,
-              "fields": fields(cls, he, base_cls), "fingerprint": fingerprint(cls)}
+              "fields": fields(cls, he, base_cls), "fingerprint": fingerprint(cls), "src_fingerprint": src_fingerprint(pkg)}
         # a subclass of another optimizer inherits its methods: analyse through the parent as well (fail closed: mark irregular)
         sk["inherits_optimizer"] = [unparse(b) for b in cls.bases if unparse(b) not in ("OptimizationAbstract",) and not unparse(b).startswith("OptimizationAbstract[")]
         out.append(sk)
